@@ -179,7 +179,11 @@ func (cc *ClientConnection) startTls(conn streams.Connection) (streams.Connectio
 	} else {
 		tlsConfig = &tls.Config{}
 	}
+	// The certificate is issued for the host, but the upstream address usually carries a port too
 	tlsConfig.ServerName = cc.host
+	if h, _, err := net.SplitHostPort(cc.host); err == nil {
+		tlsConfig.ServerName = h
+	}
 
 	log.Tracef("[Client] Executing TLS handshake")
 	tlsConn := tls.Client(conn, tlsConfig)
